@@ -438,12 +438,17 @@ section tb
 variable {U C : Type} (A : Arith D) (Am : Ambient S D) (O : AtlasOracle σ S U C D) (P : AtlasParams D)
   (isFin : D → Bool) (fuel : Nat)
 
-/-- TangentBundle's `interpolate`, as coded: the state handed back is `from` (the geodesic failed,
-or the fix-up projection failed and `geodesic[0]` is returned) or the output of a **successful**
-fix-up `psi` that was also answered valid — never one of the lazily stored, unprojected states. -/
-theorem tb_interpolate_on_manifold (s : σ) (frm tgt : S) (t : D) (x : S) (s' : σ)
+/-- TangentBundle's `interpolate`, **as coded**: the state handed back is
+* `from` (the geodesic failed, or the fix-up projection of a pick other than index 0 failed), or
+* the output of a **successful** fix-up `psi` that was also answered valid, or
+* — the aliasing case, F74 — when the pick is `geodesic[0]` and its fix-up projection *fails*:
+  whatever that failed projection left in `geodesic[0]` (it works in place), which need not satisfy
+  anything.
+The full statement "from or a successful projection" is refuted by `tb_interpolate_alias_fails`. -/
+theorem tb_interpolate_on_manifold_partial (s : σ) (frm tgt : S) (t : D) (x : S) (s' : σ)
     (h : tbInterpolate A Am O P isFin fuel s frm tgt t = some (x, s')) :
-    x = frm ∨ (PsiOut O x ∧ AValid O x) := by
+    x = frm ∨ (PsiOut O x ∧ AValid O x) ∨
+      (∃ s₁ r, tbProject O s₁ frm = some r ∧ r.1 = false ∧ x = r.2.1) := by
   unfold tbInterpolate at h
   simp only at h
   split at h
@@ -456,18 +461,36 @@ theorem tb_interpolate_on_manifold (s : σ) (frm tgt : S) (t : D) (x : S) (s' : 
     unfold tbPick at h
     split at h
     · cases h
-    · split at h
+    · rename_i i _
+      split at h
       · cases h
-      · rename_i r hr
+      · rename_i y hy
         split at h
-        · rename_i hr1
-          simp only [Option.some.injEq, Prod.mk.injEq] at h
-          obtain ⟨hx, _⟩ := h
-          subst hx
-          exact Or.inr (tbProject_true O _ _ r hr hr1)
-        · rw [hhead] at h
-          simp only [Option.map_some, Option.some.injEq, Prod.mk.injEq] at h
-          exact Or.inl h.1.symm
+        · cases h
+        · rename_i r hr
+          split at h
+          · rename_i hr1
+            simp only [Option.some.injEq, Prod.mk.injEq] at h
+            obtain ⟨hx, _⟩ := h
+            subst hx
+            exact Or.inr (Or.inl (tbProject_true O _ _ r hr hr1))
+          · rename_i hr1
+            split at h
+            · rename_i hi0
+              subst hi0
+              simp only [Option.some.injEq, Prod.mk.injEq] at h
+              have hy' : y = frm := by
+                cases l with
+                | nil => simp at hy
+                | cons z zs =>
+                  simp only [List.getElem?_cons_zero, Option.some.injEq] at hy
+                  simp only [List.head?_cons, Option.some.injEq] at hhead
+                  rw [← hy, hhead]
+              subst hy'
+              exact Or.inr (Or.inr ⟨_, r, hr, by simpa using hr1, h.1.symm⟩)
+            · rw [hhead] at h
+              simp only [Option.map_some, Option.some.injEq, Prod.mk.injEq] at h
+              exact Or.inl h.1.symm
   · simp only [Option.some.injEq, Prod.mk.injEq] at h
     exact Or.inl h.1.symm
 
@@ -608,6 +631,15 @@ theorem nonvacuous_atlas_geodesic :
     (atlasGeodesic natArith lineAmb lineAtlas ⟨1, 3, 5, 0, 1, 200⟩ 10 () 0 3 false).ok = true := by
   constructor <;>
     simp [atlasGeodesic, atlasLoop, atlasStep, validOrSkip, leavesChart, lineAtlas, failingAtlas, natArith, lineAmb]
+
+/-- **F74, kernel-checked witness**: `from = to` (the geodesic answers `[from]` at once), every
+`psi` fails leaving 99 in the state it was given: `interpolate(7, 7, t)` hands back 99, neither
+`from` nor the output of a successful projection. -/
+theorem tb_interpolate_alias_fails :
+    (tbInterpolate natArith lineAmb failingAtlas ⟨1, 3, 5, 0, 1, 200⟩ (fun _ => true) 10 () 7 7 0).map
+      (fun r => r.1) = some 99 := by
+  simp [tbInterpolate, tbGeo, tbGeodesic, tbPick, tbProject, geodesicInterpolateIdx, sumsOf, failingAtlas,
+    natArith, lineAmb]
 
 /-- the picks that the comment in the source describes as "the closer of the two adjacent states"
 are in fact the first stored state *past* `t` (F15): on `[0, 1, 2]`, `t = 0` picks index 1, not
